@@ -535,6 +535,44 @@ def inotify_header(ctx, RH, P) -> None:
         ctx.check(adv_ok, RH, "decoder: the cursor advances by header size + len", f"the cursor becomes `{adv[-1].text[:80] if adv else None}`; expected cursor + {size} + len: records after the first are mis-aligned", where)
 
 
+def ctypes_layout(P, module, clsname: str) -> dict:
+    """{"size": sizeof, "offsets": {field: offset}} of a ctypes.Structure of the module, computed from its _fields_ with natural
+    alignment (no _pack_): the sizes are those of the Windows ABI the structure is declared for."""
+    SIZES = {"DWORD": 4, "ULONG": 4, "LONG": 4, "UINT": 4, "INT": 4, "BOOL": 4, "c_uint32": 4, "c_int32": 4, "c_int": 4, "c_uint": 4, "c_long": 4, "c_ulong": 4,
+             "WORD": 2, "USHORT": 2, "SHORT": 2, "WCHAR": 2, "c_wchar": 2, "c_uint16": 2, "c_int16": 2, "c_short": 2, "c_ushort": 2,
+             "BYTE": 1, "CHAR": 1, "c_char": 1, "c_byte": 1, "c_ubyte": 1, "c_uint8": 1, "c_int8": 1, "BOOLEAN": 1,
+             "c_uint64": 8, "c_int64": 8, "c_longlong": 8, "c_ulonglong": 8, "c_void_p": 8, "HANDLE": 8, "LPVOID": 8, "LPCWSTR": 8, "LPWSTR": 8, "c_size_t": 8, "c_double": 8}
+    ci = module.classes.get(clsname)
+    if ci is None or "_fields_" not in ci.attrs or "_pack_" in ci.attrs:
+        raise AnalysisError(f"ctypes layout of {clsname}: _fields_ not found (or packed)")
+    fields = ci.attrs["_fields_"]
+    if not isinstance(fields, (ast.Tuple, ast.List)):
+        raise AnalysisError(f"ctypes layout of {clsname}: _fields_ is not a display")
+
+    def size_align(t):
+        if isinstance(t, ast.BinOp) and isinstance(t.op, ast.Mult):
+            n = P.fold(t.right, module)
+            s_, a_ = size_align(t.left)
+            if not isinstance(n, int):
+                raise AnalysisError(f"ctypes layout of {clsname}: array length does not fold")
+            return s_ * n, a_
+        nm = (dotted(t) or "").split(".")[-1]
+        if nm not in SIZES:
+            raise AnalysisError(f"ctypes layout of {clsname}: unknown field type {ast.unparse(t)}")
+        return SIZES[nm], SIZES[nm]
+
+    off, maxal, offsets = 0, 1, {}
+    for f_ in fields.elts:
+        if not (isinstance(f_, ast.Tuple) and len(f_.elts) == 2 and isinstance(f_.elts[0], ast.Constant)):
+            raise AnalysisError(f"ctypes layout of {clsname}: field entry not understood")
+        sz, al = size_align(f_.elts[1])
+        off = (off + al - 1) // al * al
+        offsets[f_.elts[0].value] = off
+        off += sz
+        maxal = max(maxal, al)
+    return {"size": (off + maxal - 1) // maxal * maxal, "offsets": offsets}
+
+
 def run(ctx) -> None:
     P = ctx.P
     RWn = ctx.rule("C20/windows-emission-contract", "per ReadDirectoryChangesW action: ADDED -> created of the entry's kind (+ sub-created for a directory under a recursive watch); REMOVED -> deleted of the entry's kind; MODIFIED -> modified of the entry's kind; RENAMED_OLD then RENAMED_NEW -> one moved(source, destination) of the entry's kind (+ sub-moved for a directory under a recursive watch); REMOVED_SELF -> DirDeletedEvent(root) and stop", floor=8)
@@ -914,16 +952,30 @@ def run(ctx) -> None:
     adv_ok = stop_ok = name_ok = True
     why_adv = why_stop = why_name = ""
     ncont = nleave = 0
+    layout = ctypes_layout(P, wm, "FileNotifyInformation")
+    min_record = layout["offsets"].get("FileName", 0) + 2  # the header and a name of one UTF-16 code unit
+    ctx.extra["windows_record_layout"] = {"sizeof": layout["size"], "FileName.offset": layout["offsets"].get("FileName"), "shortest_record": min_record}
+    NAMEOFF = "FileNotifyInformation.FileName.offset"
     for cf, L in walks:
+        fparams = {a_.arg for a_ in cf.node.args.args}
+        # what the loop's buffer was before the loop (a view limited to the returned byte count, or the whole buffer)
+        pre = {}
+        for n_ in ast.walk(cf.node):
+            if isinstance(n_, ast.Assign) and len(n_.targets) == 1 and isinstance(n_.targets[0], ast.Name) and n_.lineno < L.node.lineno:
+                pre.setdefault(n_.targets[0].id, ast.unparse(n_.value))
         for b_ in L.extra["paths"]:
             if b_.outcome[0] == "raise":
                 continue
-            recs = {m_.group(0) for x in b_.evs for m_ in re.finditer(r"ctypes\.cast\((\w+)@L\d+, LPFNI\)\[0\]", x.text)}
+            # the record at the cursor: ctypes.cast(<buffer>, LPFNI)[0], or FileNotifyInformation.from_buffer[_copy](<buffer>[, <offset>])
+            recs = {}
+            for x in b_.evs:
+                for m_ in re.finditer(r"ctypes\.cast\((\w+)@L\d+, LPFNI\)\[0\]", x.text):
+                    recs[m_.group(0)] = ("cast", m_.group(1), True, None)
+                for m_ in re.finditer(r"FileNotifyInformation\.from_buffer(?:_copy)?\((\w+)(@L\d+)?(?:, (\w+)@L\d+)?\)", x.text):
+                    recs[m_.group(0)] = ("from_buffer", m_.group(1), bool(m_.group(2)), m_.group(3))
             if len(recs) != 1:
-                adv_ok, why_adv = False, f"the record is not read as ctypes.cast(<buffer>, LPFNI)[0] of the loop's buffer ({sorted(recs)})"
-                continue
-            REC = recs.pop()
-            buf = re.match(r"ctypes\.cast\((\w+)@", REC).group(1)
+                raise AnalysisError(f"winapi buffer walk: the record at the cursor is read by an idiom this rule does not know ({sorted(recs)}); known: ctypes.cast(buffer, LPFNI)[0], FileNotifyInformation.from_buffer[_copy](buffer[, offset])")
+            (REC, (style, buf, buf_carried, off)), = recs.items()
             NEO = f"{REC}.NextEntryOffset"
             c_ = b_.conds()
             positive = (
@@ -932,18 +984,60 @@ def run(ctx) -> None:
                 or c_.get(NEO) is True
             )
             # the name: FileNameLength bytes at the FileName offset of this record, decoded as UTF-16
-            want_a = f"ctypes.string_at(ctypes.addressof({REC}) + FileNotifyInformation.FileName.offset, {REC}.FileNameLength).decode('utf-16')"
-            want_b = f"ctypes.string_at(FileNotifyInformation.FileName.offset + ctypes.addressof({REC}), {REC}.FileNameLength).decode('utf-16')"
+            wants = []
+            if style == "cast":
+                wants += [
+                    f"ctypes.string_at(ctypes.addressof({REC}) + {NAMEOFF}, {REC}.FileNameLength).decode('utf-16')",
+                    f"ctypes.string_at({NAMEOFF} + ctypes.addressof({REC}), {REC}.FileNameLength).decode('utf-16')",
+                ]
+            else:
+                bref = re.search(rf"\(({buf}(?:@L\d+)?)[,)]", REC).group(1)
+                oref = re.search(rf", ({off}@L\d+)\)", REC).group(1) if off else None
+                for S in ([f"{oref} + {NAMEOFF}", f"{NAMEOFF} + {oref}"] if oref else [NAMEOFF]):
+                    sl = f"{bref}[{S}:{S} + {REC}.FileNameLength]"
+                    wants += [f"{sl}.decode('utf-16')", f"{sl}.tobytes().decode('utf-16')", f"bytes({sl}).decode('utf-16')"]
             outs = [x for x in b_.evs if x.kind == "yield" or (x.kind == "call" and x.extra.get("func", "").endswith(".append"))]
-            if not outs or not all(want_a in x.text or want_b in x.text for x in outs):
-                name_ok, why_name = False, "a record is handed on whose name is not string_at(addressof(record) + FileName.offset, record.FileNameLength).decode('utf-16')"
+            if not outs or not all(any(w in x.text for w in wants) for x in outs):
+                name_ok, why_name = False, "a record is handed on whose name is not the record's FileNameLength bytes at its FileName offset, decoded as UTF-16"
+            # a structure read through from_buffer[_copy] needs sizeof(structure) bytes behind the cursor: the buffer must be the whole
+            # read buffer, not a view cut to the returned byte count (the last record of a read is not padded)
+            if style == "from_buffer":
+                origin = pre.get(buf, buf if buf in fparams else "")
+                whole = (buf in fparams and buf not in pre) or re.fullmatch(r"(?:memoryview|bytes|bytearray)\((\w+)\)", origin) is not None and re.fullmatch(r"(?:memoryview|bytes|bytearray)\((\w+)\)", origin).group(1) in fparams
+                if not whole:
+                    adv_ok, why_adv = False, (
+                        f"the record header is read with from_buffer[_copy] from `{buf}` = `{origin[:60]}`, which is cut to the bytes returned: that read needs sizeof(FILE_NOTIFY_INFORMATION) = {layout['size']} bytes, "
+                        f"but the last record of a read may be only {min_record} bytes long (FileName.offset {min_record - 2} + one UTF-16 unit) — under the loop test `{L.text}` it is dropped (or the read raises ValueError)"
+                    )
             if b_.outcome is NORMAL or b_.outcome == ("continue",):
                 ncont += 1
                 asg = {x.extra.get("name"): x.text for x in b_.evs if x.kind == "assign"}
-                adv_buf = re.fullmatch(rf"{buf} = {buf}@L\d+\[{re.escape(NEO)}:\]", asg.get(buf, "")) is not None
-                cnt = [n_ for n_, t_ in asg.items() if re.fullmatch(rf"{n_} = {n_}@L\d+ - {re.escape(NEO)}", t_)]
-                if not adv_buf or len(cnt) != 1 or cnt[0] not in L.text:
-                    adv_ok, why_adv = False, f"an iteration that goes on does not advance the buffer by `{NEO}` and the remaining count (the loop's own test variable) by the same amount"
+                test_var = None
+                if off is not None:
+                    # offset cursor over an unchanging buffer
+                    adv = re.fullmatch(rf"{off} = (?:{off}@L\d+ \+ {re.escape(NEO)}|{re.escape(NEO)} \+ {off}@L\d+)", asg.get(off, "")) is not None and not buf_carried
+                    mt = re.fullmatch(rf"{off} < (\w+)|(\w+) > {off}", L.text)
+                    bound = (mt.group(1) or mt.group(2)) if mt else None
+                    if not adv or bound is None or bound not in fparams or bound in asg:
+                        adv_ok, why_adv = False, f"an iteration that goes on does not advance the offset `{off}` by `{NEO}` under a loop test `{off} < <returned byte count>` (test: `{L.text}`)"
+                else:
+                    adv_buf = re.fullmatch(rf"{buf} = {buf}@L\d+\[{re.escape(NEO)}:\]", asg.get(buf, "")) is not None
+                    cnt = [n_ for n_, t_ in asg.items() if re.fullmatch(rf"{n_} = {n_}@L\d+ - {re.escape(NEO)}", t_)]
+                    if not adv_buf or len(cnt) != 1 or cnt[0] not in L.text:
+                        if adv_ok:
+                            adv_ok, why_adv = False, f"an iteration that goes on does not advance the buffer by `{NEO}` and the remaining count (the loop's own test variable) by the same amount"
+                    else:
+                        test_var = cnt[0]
+                        mt = re.fullmatch(rf"{test_var} (>|>=) (.+)|{test_var}", L.text)
+                        if mt is None:
+                            adv_ok, why_adv = False, f"the loop test `{L.text}` is not `<remaining count> > 0`"
+                        elif mt.group(1):
+                            k = P.fold(ast.parse(mt.group(2), mode="eval").body, wm)
+                            if not isinstance(k, int):
+                                raise AnalysisError(f"winapi buffer walk: the bound in the loop test `{L.text}` does not fold to an integer")
+                            least = k + (1 if mt.group(1) == ">" else 0)
+                            if not (1 <= least <= min_record):
+                                adv_ok, why_adv = False, f"the loop test `{L.text}` stops the walk while {least - 1} byte(s) remain: the last record of a read may be only {min_record} bytes long and is dropped"
                 if not positive:
                     stop_ok, why_stop = False, "an iteration goes on without having established that NextEntryOffset is positive: the last record (NextEntryOffset == 0) is decoded again, forever"
             else:
